@@ -323,6 +323,8 @@ var families = []family{
 	{name: "share-claim", suffix: func(s *srv) string { return s.S.Ref.String() }},
 	{name: "share-target-via", suffix: func(s *srv) string { return s.F.Ref.String() + "?via=" + s.S.Ref.String() }},
 	{name: "share-target-via-assemble", suffix: func(s *srv) string { return s.F.Ref.String() + "?via=" + s.S.Ref.String() + "&assemble=1" }},
+	{name: "share-target-via-assemble-true", suffix: func(s *srv) string { return s.F.Ref.String() + "?via=" + s.S.Ref.String() + "&assemble=true" }},
+	{name: "share-target-via-assemble-T", suffix: func(s *srv) string { return s.F.Ref.String() + "?assemble=T&via=" + s.S.Ref.String() }},
 	{name: "share-beyond-via", suffix: func(s *srv) string {
 		return s.K.Ref.String() + "?via=" + s.S.Ref.String() + "," + s.F.Ref.String()
 	}},
